@@ -154,6 +154,9 @@ func (p *projector) projectIn(b bo.Box, owner int) *abox {
 	}
 	if len(st.GetTransform()) != 0 {
 		a.Flags |= 16
+		if singularTransform(st.GetTransform()) {
+			a.Flags |= 64
+		}
 	}
 	if st.GetOverflow() != "visible" {
 		a.Flags |= 32
@@ -193,6 +196,33 @@ func (p *projector) projectIn(b bo.Box, owner int) *abox {
 		a.Kids = append(a.Kids, p.projectIn(c, owner))
 	}
 	return a
+}
+
+// singularTransform decides, from the computed style alone (not from /repo's matrix
+// code), whether the transform list is not invertible.  Only lists made of
+// translate / scale / matrix functions are decided (their linear parts have small
+// integer entries in the generated documents, so float32 products are exact):
+// the product is singular iff one factor is.  Lists with rotate / skew are never
+// generated together with a singular factor.
+func singularTransform(ts pr.Transforms) bool {
+	sing := false
+	for _, t := range ts {
+		d := t.Dimensions
+		switch t.String {
+		case "translate":
+		case "scale":
+			if d[0].Value == 0 || d[1].Value == 0 {
+				sing = true
+			}
+		case "matrix":
+			if d[0].Value*d[3].Value == d[1].Value*d[2].Value {
+				sing = true
+			}
+		default:
+			return false
+		}
+	}
+	return sing
 }
 
 func (a *abox) coq(sb *strings.Builder) {
@@ -235,6 +265,18 @@ func (a *abox) tags(t map[string]bool) {
 	}
 	if a.Flags&16 != 0 {
 		t["transform"] = true
+	}
+	if a.Flags&64 != 0 && a.Kind != "KInline" { // draw.go:252-258: nothing of the sub-tree is painted
+		t["singular-transform"] = true
+		if a.Flags&8 != 0 {
+			t["singular-opacity"] = true
+		}
+		if a.Flags&32 != 0 {
+			t["singular-overflow"] = true
+		}
+		if len(a.Kids) > 0 {
+			t["singular-with-content"] = true
+		}
 	}
 	if a.Flags&32 != 0 {
 		t["overflow"] = true
@@ -528,11 +570,11 @@ func runDocument(html string) docResult {
 	if o.Status != "ok" {
 		return docResult{Status: "layout-" + o.Status, Msg: o.Site + " " + o.Msg}
 	}
-	var rec *render.Recorder
+	var rec *tagger
 	crashed := false
 	crashMsg := ""
 	o = render.GuardTimeout(20*time.Second, func() {
-		rec = render.NewRecorder()
+		rec = newTagger()
 		doc.Write(rec, 1, nil)
 	})
 	if o.Status != "ok" {
@@ -583,7 +625,12 @@ func runDocument(html string) docResult {
 		}
 		var impl []ev
 		if rec != nil {
-			impl = translate(rec.Events, pi, p)
+			// what reaches the page: events made on a canvas that is never composited are lost
+			live, lost := rec.liveEvents()
+			impl = translate(live, pi, p)
+			if lost > 0 {
+				tags = append(tags, "painting-lost")
+			}
 		}
 		if noclip {
 			var f []ev
